@@ -22,7 +22,9 @@ META = {
     "design_ref": "DESIGN.md 3.1 (static semantics), 5 C06",
     "level_text": "The verdict for each program comes from TLC evaluating the explicit typing rules of AldorTypes.tla, not from the mutation "
                   "catalogue: every eligible site of every base program receives every catalogue fault (wrong argument type, wrong count, "
-                  "undefined name, assignment to a constant, wrong return type) plus type-preserving control mutations that must stay accepted.",
+                  "undefined name, assignment to a constant, wrong return type) plus type-preserving control mutations that must stay accepted. "
+                  "Function values whose parameters are domains: MapSat.tla derives the rule from substitution over a chain of categories, "
+                  "TLC checks it to be contravariance, and every signature pair within the bounds is compiled.",
     "level_note": "Trusted: the typing rules of AldorTypes.tla (they cover the generated family only: scalars, lists, arrays, records, unions, "
                   "closures, generators, overloading with resolution, macros, categories and (parametrised) domains, domains with a private "
                   "representation, several values at once, collect forms, loop filters, default and keyword arguments, exceptions with "
